@@ -229,6 +229,10 @@ def check(s: str):
 
     fn = getattr(future.transform, "__wrapped__", future.transform)
     try:
+        ast.parse(s, mode="eval")
+    except SyntaxError:
+        return None  # the renderer nested two conditional expressions without parentheses: not an expression string
+    try:
         t = fn(s)
     except Exception as e:  # noqa: BLE001
         return ("transform_raised:" + type(e).__name__, "transform", _d(s))
